@@ -14,6 +14,7 @@ under an explicit decidable exclusion; clauses that failed before a `fix:` commi
 here at full strength and have an `…_old_code_fails` theorem in `Witness.lean`.
 -/
 import CaddyModel.C06.GlobLemmas
+import CaddyModel.C06.SiteLemmas
 import CaddyModel.C06.Witness
 import CaddyModel.Gen.Consts
 
@@ -424,6 +425,43 @@ theorem matcherSet_perm_invariant (thr : Nat) (hosts hosts' pats pats' : List By
   unfold setCase
   rw [matchHost_perm_invariant thr hosts hosts' h h1, matchPath_perm_invariant pats pats' p e h2]
 
+/-! ## Caddyfile glue: a site block `<key> { respond <matcher> "hit" }` through the adapter -/
+
+/-- **the whole site block depends only on the canonical host and the cleaned forms of the path**:
+    the site key's host and path matchers, the directive's implicit / named matcher set and
+    their conjunction add no other dependence on the spelling of the request -/
+theorem siteCase_depends_only_on_canonical_request (thr : Nat) (key : Bytes) (mode : TokMode)
+    (hosts pats : List Bytes) (h h' p e p' e' : Bytes) (hh : canonHost h = canonHost h')
+    (hp : ∀ m, cleanPathMode m (lower p) = cleanPathMode m (lower p'))
+    (he : ∀ m, cleanPathMode m (lower e) = cleanPathMode m (lower e')) :
+    siteCase thr key mode hosts pats h p e = siteCase thr key mode hosts pats h' p' e' := by
+  unfold siteCase tokCase
+  rw [matchHost_depends_only_on_canonical_host thr [(parseSiteKey key).1] h h' hh,
+    matchHost_depends_only_on_canonical_host thr hosts h h' hh,
+    matchPath_depends_only_on_clean_forms [(parseSiteKey key).2] p e p' e' hp he,
+    matchPath_depends_only_on_clean_forms pats p e p' e' hp he]
+
+/-- **the spelling of the site key never matters**: `Name:port/path` and `name/path` (any letter
+    case of the name, any port or none) configure the same site — the adapter stores the
+    lower-cased name without the port as the host matcher -/
+theorem siteCase_key_spelling_invariant (thr : Nat) (n n' port q : Bytes) (mode : TokMode)
+    (hosts pats : List Bytes) (h p e : Bytes)
+    (hn : plainHost n = true) (hn' : plainHost n' = true) (hport : plainHost port = true)
+    (hs : (n ++ cColon :: port).contains cSlash = false) (hs' : n'.contains cSlash = false)
+    (hq : keyPathShape q = true)
+    (hns : hasPrefix (n ++ cColon :: port ++ q) httpScheme = false)
+    (hns' : hasPrefix (n' ++ q) httpScheme = false)
+    (hcase : lower n = lower n') :
+    siteCase thr (n ++ cColon :: port ++ q) mode hosts pats h p e =
+      siteCase thr (n' ++ q) mode hosts pats h p e := by
+  unfold siteCase
+  rw [parseSiteKey_name_port n port q hn hport hs hq hns, parseSiteKey_name n' q hn' hs' hq hns', hcase]
+
+/-- the implicit matcher token `/pattern` is the path matcher with that one pattern, `*` is no matcher -/
+theorem tokCase_implicit_and_star (thr : Nat) (pat rhost p e : Bytes) :
+    tokCase thr .implicit [] [pat] rhost p e = .res (pathCase [pat] p e) ∧
+    tokCase thr .star [] [] rhost p e = .res true := ⟨rfl, rfl⟩
+
 /-! ## MatchPathRE -/
 
 /-- the expression only ever sees the cleaned path -/
@@ -495,5 +533,12 @@ example : hostCase 2 [[115, 46, 99, 111, 109], [98, 46, 116, 101, 115, 116], [42
 
 example : setCase 2 [[69, 120, 97, 109, 112, 108, 101, 46, 99, 111, 109], [98, 46, 116, 101, 115, 116], [42, 46, 99, 46, 116, 101, 115, 116]] [[47, 97, 112, 105, 47, 42]] [69, 88, 65, 77, 80, 76, 69, 46, 99, 111, 109, 58, 56, 48] [47, 65, 80, 73, 47, 47, 118, 49, 47, 46, 47, 120, 47, 46, 46, 47, 117, 115, 101, 114, 115] [47, 65, 80, 73, 47, 47, 118, 49, 47, 46, 47, 120, 47, 46, 46, 47, 117, 115, 101, 114, 115] = .res true := by decide
 example : setCase 2 [[69, 120, 97, 109, 112, 108, 101, 46, 99, 111, 109], [98, 46, 116, 101, 115, 116], [42, 46, 99, 46, 116, 101, 115, 116]] [[47, 97, 112, 105, 47, 42]] [120, 46, 121] [47, 65, 80, 73, 47, 47, 118, 49, 47, 46, 47, 120, 47, 46, 46, 47, 117, 115, 101, 114, 115] [47, 65, 80, 73, 47, 47, 118, 49, 47, 46, 47, 120, 47, 46, 46, 47, 117, 115, 101, 114, 115] = .res false := by decide
+
+example : parseSiteKey [69, 120, 97, 109, 112, 108, 101, 46, 67, 79, 77, 58, 56, 48, 56, 48, 47, 97, 112, 105, 42] = ([101, 120, 97, 109, 112, 108, 101, 46, 99, 111, 109], [47, 97, 112, 105, 42]) ∧ parseSiteKey [101, 120, 97, 109, 112, 108, 101, 46, 99, 111, 109, 47, 97, 112, 105, 42] = ([101, 120, 97, 109, 112, 108, 101, 46, 99, 111, 109], [47, 97, 112, 105, 42]) := by decide
+example : plainHost [69, 120, 97, 109, 112, 108, 101, 46, 67, 79, 77] = true ∧ plainHost [56, 48, 56, 48] = true ∧ keyPathShape [47, 97, 112, 105, 42] = true ∧
+    hasPrefix [69, 120, 97, 109, 112, 108, 101, 46, 67, 79, 77, 58, 56, 48, 56, 48, 47, 97, 112, 105, 42] httpScheme = false ∧ lower [69, 120, 97, 109, 112, 108, 101, 46, 67, 79, 77] = lower [101, 120, 97, 109, 112, 108, 101, 46, 99, 111, 109] := by decide
+example : siteCase 100 [69, 120, 97, 109, 112, 108, 101, 46, 67, 79, 77, 58, 56, 48, 56, 48, 47, 97, 112, 105, 42] .named [[119, 119, 119, 46, 101, 120, 97, 109, 112, 108, 101, 46, 99, 111, 109]] [[42, 46, 112, 104, 112]] [69, 88, 65, 77, 80, 76, 69, 46, 99, 111, 109, 58, 52, 52, 51] [47, 65, 80, 73, 47, 120, 46, 112, 104, 112] [47, 65, 80, 73, 47, 120, 46, 112, 104, 112] = .res false := by decide
+example : siteCase 100 [69, 120, 97, 109, 112, 108, 101, 46, 67, 79, 77, 58, 56, 48, 56, 48, 47, 97, 112, 105, 42] .implicit [] [[47, 97, 112, 105, 47, 118, 49, 47, 42]] [69, 88, 65, 77, 80, 76, 69, 46, 99, 111, 109, 58, 52, 52, 51] [47, 120, 47, 46, 46, 47, 47, 65, 112, 105, 47, 86, 49, 47, 117, 115, 101, 114, 115] [47, 120, 47, 46, 46, 47, 47, 65, 112, 105, 47, 86, 49, 47, 117, 115, 101, 114, 115] = .res true := by decide
+example : siteCase 100 [104, 116, 116, 112, 58, 47, 47, 58, 57, 48, 48, 48] .star [] [] [69, 88, 65, 77, 80, 76, 69, 46, 99, 111, 109, 58, 52, 52, 51] [47, 65, 80, 73, 47, 120, 46, 112, 104, 112] [47, 65, 80, 73, 47, 120, 46, 112, 104, 112] = .res true := by decide
 
 end CaddyModel.C06
